@@ -18,6 +18,15 @@ use crate::backend::serial::u64::field::FieldElement51;
 
 use curve25519_dalek_derive::unsafe_target_feature;
 
+/// Verification hook (needs `--cfg curve25519_dalek_verif --cfg curve25519_dalek_verif_bounds`):
+/// record the limb magnitudes a kernel was entered with.
+#[cfg(curve25519_dalek_verif_bounds)]
+#[inline(always)]
+fn verif_bound(site: usize, x: &[u64x4; 5]) {
+    let (e, o) = crate::verif::ifma::max_limbs(x);
+    crate::verif::bounds::record(site, e, o);
+}
+
 /// A wrapper around `vpmadd52luq` that works on `u64x4`.
 #[unsafe_target_feature("avx512ifma,avx512vl")]
 #[inline]
@@ -171,6 +180,8 @@ impl F51x4Unreduced {
 
     #[inline]
     pub fn negate_lazy(&self) -> F51x4Unreduced {
+        #[cfg(curve25519_dalek_verif_bounds)]
+        verif_bound(crate::verif::bounds::IFMA_NEGATE_LAZY, &self.0);
         let lo = u64x4::splat(36028797018963664u64);
         let hi = u64x4::splat(36028797018963952u64);
         F51x4Unreduced([
@@ -270,6 +281,8 @@ impl F51x4Reduced {
 
     #[inline]
     pub fn square(&self) -> F51x4Unreduced {
+        #[cfg(curve25519_dalek_verif_bounds)]
+        verif_bound(crate::verif::bounds::IFMA_SQUARE, &self.0);
         unsafe {
             let x = &self.0;
 
@@ -422,6 +435,10 @@ impl Add<F51x4Unreduced> for F51x4Unreduced {
     type Output = F51x4Unreduced;
     #[inline]
     fn add(self, rhs: F51x4Unreduced) -> F51x4Unreduced {
+        #[cfg(curve25519_dalek_verif_bounds)]
+        verif_bound(crate::verif::bounds::IFMA_ADD, &self.0);
+        #[cfg(curve25519_dalek_verif_bounds)]
+        verif_bound(crate::verif::bounds::IFMA_ADD, &rhs.0);
         F51x4Unreduced([
             self.0[0] + rhs.0[0],
             self.0[1] + rhs.0[1],
@@ -437,6 +454,8 @@ impl<'a> Mul<(u32, u32, u32, u32)> for &'a F51x4Reduced {
     type Output = F51x4Unreduced;
     #[inline]
     fn mul(self, scalars: (u32, u32, u32, u32)) -> F51x4Unreduced {
+        #[cfg(curve25519_dalek_verif_bounds)]
+        verif_bound(crate::verif::bounds::IFMA_MUL_CONSTS, &self.0);
         unsafe {
             let x = &self.0;
             let y = u64x4::new(
@@ -489,6 +508,10 @@ impl<'a, 'b> Mul<&'b F51x4Reduced> for &'a F51x4Reduced {
     type Output = F51x4Unreduced;
     #[inline]
     fn mul(self, rhs: &'b F51x4Reduced) -> F51x4Unreduced {
+        #[cfg(curve25519_dalek_verif_bounds)]
+        verif_bound(crate::verif::bounds::IFMA_MUL_LHS, &self.0);
+        #[cfg(curve25519_dalek_verif_bounds)]
+        verif_bound(crate::verif::bounds::IFMA_MUL_RHS, &rhs.0);
         unsafe {
             // Inputs
             let x = &self.0;
